@@ -155,6 +155,10 @@ func (x *seqRun) deadSweep() {
 			{K: "rename", Obj: h, Name: "a", Obj2: h, Name2: "zz6"},
 			{K: "readdir", Obj: h, Count: 4096}, {K: "readdirplus", Obj: h, Dircnt: 4096, Maxcnt: 4096},
 			{K: "fsinfo", Obj: h}, {K: "pathconf", Obj: h}, {K: "commit", Obj: h},
+			// degenerate arguments (nothing to do) must not bypass the handle check either
+			{K: "write", Obj: h, Count: 0, Data: []byte{}, How: 2}, {K: "write", Obj: h, Off: 4096, Count: 0, Data: []byte{}, How: 0},
+			{K: "read", Obj: h, Count: 0}, {K: "setattr", Obj: h}, {K: "commit", Obj: h, Off: 1, Count: 1},
+			{K: "readdir", Obj: h, Count: 0}, {K: "readdirplus", Obj: h},
 		}
 		for _, in := range ins {
 			x.checked(in)
